@@ -12,7 +12,7 @@ echo
 echo "| change | touches | check | exit | result | translator notes |"
 echo "|---|---|---|---|---|---|"
 } > $out
-for d in harmless/H*/; do
+for d in harmless/[HJ]*/; do
   id=$(basename $d)
   prop=$(python3 -c "import json;print(json.load(open('$d/meta.json'))['property'])")
   also=$(cat $d/also 2>/dev/null)
